@@ -194,6 +194,11 @@ def _kw_cycle(i, seed, **base):
     # registration order of the stations (identity / reversed / shuffled): spec-irrelevant everywhere, and after a
     # JSON round trip the loaded network must still pair every station with its own rows (C09)
     kw.setdefault("st_perm", [None, "rev", "shuffle"][(i // 2) % 3])
+    # how the simulator is assembled: verbose output on, the queue filled in different documented ways, the scheduler
+    # attached after construction
+    kw.setdefault("verbose", i % 4 == 3)
+    kw.setdefault("queue_form", ["ctor", "add_events", "add_event", "shuffled", "two_batches", "reused", "restored"][(i // 3) % 7])
+    kw.setdefault("late_scheduler", i % 5 == 2)
     return kw
 
 
@@ -224,6 +229,17 @@ def judge(rep, prop, bhv, kw, d, owners):
         rep.foreign_divergence(d["owner"], {"divergence": d, "variation": kw, "behaviour": bhv})
 
 
+def long_behaviours(rep, tier, seed, overrides):
+    """Sampled behaviours over long horizons (AcnSim_gen_long: ~20 periods, 3 stations, up to 5 sessions, max_recompute up
+    to 4, schedules of up to 12 periods that outgrow the allocated width several times)."""
+    n = 160 if tier == "quick" else 6000
+    bhvs, stats = gen_behaviours("AcnSim_gen_long", overrides, n, 420, seed + 41, procs=4 if tier == "quick" else 12)
+    for s in stats:
+        rep.add_tlc(s, "behaviour generation, long horizons (-simulate)", "AcnSim_gen_long %s" % overrides)
+    rep.notes.append("%d sampled long-horizon behaviours of AcnSim_gen_long" % len(bhvs))
+    return bhvs
+
+
 def check_spec_replay(prop, tier, seed, owners, overrides, n_quick, n_thorough, base_kw=None, extra_assumptions=()):
     rep = Report(prop, tier, seed)
     rep.rule = ("behaviours of AcnSim.tla generated by TLC (-simulate and one exhaustive tiny configuration), "
@@ -245,7 +261,8 @@ def check_spec_replay(prop, tier, seed, owners, overrides, n_quick, n_thorough, 
     rep.add_tlc(st2[0], "behaviour generation (exhaustive tiny configuration)", "AcnSim_gen_tiny")
     rep.exhaustive = False
     rep.notes.append("every behaviour of AcnSim_gen_tiny (%d) replayed; %d sampled behaviours of AcnSim_gen" % (len(tiny), len(bhvs)))
-    allb = tiny + bhvs
+    longb = long_behaviours(rep, tier, seed, {k: v for k, v in overrides.items() if k in ("MaxCrash", "AllowDump")})
+    allb = tiny + bhvs + longb
     jobs = [(b, _kw_cycle(i, seed, **(base_kw or {})), seed * 100003 + i) for i, b in enumerate(allb)]
     results = run_pool(_work_spec, jobs, 1 if tier == "quick" and len(jobs) < 400 else 12)
     for (b, kw, _), d in zip(jobs, results):
@@ -374,7 +391,8 @@ def check_C09(tier, seed):
         rep.add_tlc(s, "behaviour generation (-simulate) with interruptions", "AcnSim_gen MaxCrash=2")
     tiny, st2 = gen_behaviours("AcnSim_gen_tiny", {"MaxCrash": "= 1", "AllowDump": "= TRUE"}, 0, 0, seed, exhaustive=True)
     rep.add_tlc(st2[0], "behaviour generation (exhaustive tiny configuration, every crash point)", "AcnSim_gen_tiny")
-    allb = [b for b in tiny + bhvs if any(r["a"] in ("raise", "reject", "dumpload") for r in b)]
+    longb = long_behaviours(rep, tier, seed, {"MaxCrash": "= 2"})
+    allb = [b for b in tiny + bhvs + longb if any(r["a"] in ("raise", "reject", "dumpload") for r in b)]
     jobs = [(b, _kw_cycle(i, seed), seed * 100003 + i) for i, b in enumerate(allb)]
     for (b, kw, _), d in zip(jobs, run_pool(_work_twin, jobs, 12)):
         if d is not None and d["owner"] != "C09" and d.get("twin_ok"):
